@@ -56,7 +56,18 @@ Inductive planner :=
  | PMainRenew (main : planner) (use_labels : bool)
  | PMainOrderBy (cols : list string) (main : planner)
  | PMainLimit (main : planner)
- | PMainFinalizer (main : planner) (is_matrix is_final : bool).
+ | PMainFinalizer (main : planner) (is_matrix is_final : bool)
+ (* metric side (C08) *)
+ | PLraP (f : lra_fn) (dur_ns : Z) (with_labels : bool) (main : planner)
+ | PUnwrapP (label : string) (main : planner)
+ | PUnwrapFnP (f : lra_fn) (dur_ns : Z) (main : planner)
+ | PByWithoutP (labels : list string) (by_ : bool) (use_ts : bool) (main : planner)
+ | PAggOpP (f : agg_fn) (with_labels : bool) (main : planner)
+ | PComparisonP (fn : cmpop) (val : string) (main : planner)
+ | PTopKP (len : Z) (is_top : bool) (main : planner)
+ | PQuantileP (param : string) (dur_ns : Z) (main : planner)
+ | PStepFixP (dur_ns : Z) (main : planner)
+ | PMetrics15 (f : lra_fn) (dur_ns : Z).
 
 (* ---------- StreamSelectPlanner ---------- *)
 Definition val_clause (m : matcher) : expr :=
@@ -201,6 +212,122 @@ Definition ts_init (c : pctx) : select :=
     (set_cols [SimpleCol "time_series.fingerprint" "fingerprint"; Col (Raw ts_labels_expr) "labels"] empty_select)).
 Definition join_type (c : pctx) : string := if c_cluster c then "GLOBAL ANY LEFT " else "ANY LEFT ".
 
+
+(* ---------- metric planners: the aggregate expressions, as small structured values ---------- *)
+(* fmt.Sprintf("%f", float64(d.Milliseconds())/1000): a millisecond count printed with six decimals.
+   Exact for every duration below 2^53 microseconds (the float64 nearest to ms/1000 rounds back to it). *)
+Definition dur_ms (dur_ns : Z) : Z := Z.quot dur_ns 1000000.
+Definition secs_text (ms : Z) : string :=
+  string_of_Z (Z.quot ms 1000) ++ "." ++ dec_pad 3 (Z.to_N (Z.rem ms 1000)) ++ "000".
+
+(* the value column of LRAPlanner *)
+Inductive lra_val := LVCount | LVCountDiv (ms : Z) | LVBytes | LVBytesDiv (ms : Z).
+Definition lra_val_of (f : lra_fn) (dur_ns : Z) : option lra_val :=
+  match f with
+  | FRate => Some (LVCountDiv (dur_ms dur_ns))
+  | FCountOverTime => Some LVCount
+  | FBytesRate => Some (LVBytesDiv (dur_ms dur_ns))
+  | FBytesOverTime => Some (LVBytesDiv (dur_ms dur_ns))      (* as in the code: the fragment of bytes_rate *)
+  | _ => None                                                 (* col stays nil: NewCol(nil).String panics *)
+  end.
+Definition lra_val_sql (v : lra_val) : expr :=
+  match v with
+  | LVCount => Raw "toFloat64(COUNT())"
+  | LVCountDiv ms => Sep " / " [Raw "toFloat64(COUNT())"; FloatV (secs_text ms)]
+  | LVBytes => Raw "toFloat64(sum(length(_string)))"
+  | LVBytesDiv ms => Sep " / " [Raw "toFloat64(sum(length(_string)))"; FloatV (secs_text ms)]
+  end.
+
+(* the value column of UnwrapFunctionPlanner *)
+Inductive uw_val := UVSum | UVSumDiv (ms : Z) | UVAvg | UVMax | UVMin | UVFirst | UVLast | UVVarPop | UVStddevPop.
+Definition uw_val_of (f : lra_fn) (dur_ns : Z) : option uw_val :=
+  match f with
+  | FRate => Some (UVSumDiv (dur_ms dur_ns))
+  | FSumOverTime => Some UVSum
+  | FAvgOverTime => Some UVAvg
+  | FMaxOverTime => Some UVMax
+  | FMinOverTime => Some UVMin
+  | FFirstOverTime => Some UVFirst
+  | FLastOverTime => Some UVLast
+  | FStdvarOverTime => Some UVVarPop
+  | FStddevOverTime => Some UVStddevPop
+  | _ => None
+  end.
+Definition uw_val_sql (v : uw_val) : expr :=
+  match v with
+  | UVSum => Raw "sum(unwrap_1.value)"
+  | UVSumDiv ms => Sep " / " [Raw "sum(unwrap_1.value)"; FloatV (secs_text ms)]
+  | UVAvg => Raw "avg(unwrap_1.value)"
+  | UVMax => Raw "max(unwrap_1.value)"
+  | UVMin => Raw "min(unwrap_1.value)"
+  | UVFirst => Raw "argMin(unwrap_1.value, unwrap_1.timestamp_ns)"
+  | UVLast => Raw "argMax(unwrap_1.value, unwrap_1.timestamp_ns)"
+  | UVVarPop => Raw "varPop(unwrap_1.value)"
+  | UVStddevPop => Raw "stddevPop(unwrap_1.value)"
+  end.
+
+(* the value column of AggOpPlanner *)
+Definition agg_val_sql (f : agg_fn) : expr :=
+  match f with
+  | ASum => Raw "sum(lra_main.value)"
+  | AMin => Raw "min(lra_main.value)"
+  | AMax => Raw "max(lra_main.value)"
+  | AAvg => Raw "avg(lra_main.value)"
+  | AStddev => Raw "stddevPop(lra_main.value)"
+  | AStdvar => Raw "varPop(lra_main.value)"
+  | ACount => Raw "count()"
+  end.
+
+(* the value column of Metrics15ShortcutPlanner *)
+Inductive m15_val := MVCount | MVCountDiv (ms : Z).
+Definition m15_val_of (f : lra_fn) (dur_ns : Z) : option m15_val :=
+  match f with
+  | FRate => Some (MVCountDiv (dur_ms dur_ns))
+  | FCountOverTime => Some MVCount
+  | _ => None
+  end.
+Definition m15_val_sql (v : m15_val) : expr :=
+  match v with
+  | MVCount => Raw "countMerge(count)"
+  | MVCountDiv ms => Sep " / " [Raw "toFloat64(countMerge(count))"; FloatV (secs_text ms)]
+  end.
+
+(* fmt.Sprintf("intDiv(<col>, %d) * %[1]d", n): the bucket of a timestamp *)
+Definition bucket_sql (col : string) (n : Z) : expr := Sep " * " [Fn "intDiv" [Id col; IntV n]; IntV n].
+
+Definition cmp_mk (fn : cmpop) : expr -> expr -> expr :=
+  match fn with CEq => Eq | CNeq => Neq | CGt => Gt | CGe => Ge | CLt => Lt | CLe => Le end.
+
+(* byWithoutFilterCol *)
+Definition bw_filter (col : expr) (labels : list string) (by_ : bool) : expr :=
+  Sep "" [Raw "mapFilter((k,v) -> k "; Raw (if by_ then "IN" else "NOT IN"); Raw " ("; Sep "," (map StrV labels); Raw "), "; col; Raw ")"].
+
+(* regexMap of planner_parser_regexp.go; id = sql.Ctx.Id() drawn after the parts are rendered *)
+Definition regex_map (names : list string) (re : string) : expr :=
+  WithId (fun id =>
+    let i := string_of_N id in
+    Sep "" [Raw "mapFromArrays(arrayFilter( (x,y) -> x != '' AND y != '',  ["; Sep "," (map StrV names);
+            Raw ("] as re_lbls_" ++ i ++ ",  arrayMap(x -> x[length(x)], extractAllGroupsHorizontal(string, ");
+            StrV re;
+            Raw (")) as re_vals_" ++ i ++ "),arrayFilter((x,y) -> x != '' AND y != '', re_vals_" ++ i ++ ", re_lbls_" ++ i ++ "))")]).
+
+(* TopKPlanner: the slice column *)
+Definition topk_slice (len : Z) (is_top has_labels : bool) : expr :=
+  Sep "" [Raw "arraySlice(arraySort(";
+          Raw (if is_top then "x -> (-x.1, x.2" ++ (if has_labels then ", x.3" else "") ++ ")," else "");
+          Raw "groupArray((par_a.value, par_a.fingerprint"; Raw (if has_labels then ", par_a.labels" else "");
+          Raw "))), 1, "; IntV len; Raw ")"].
+
+(* LRAPlanner renames the "string" column of its input *)
+Definition rename_string (cols : list expr) : list expr :=
+  map (fun c => match alias_of c with
+                | Some (x, a) => if String.eqb a "string" then Col x "_string" else c
+                | None => c end) cols.
+
+(* labelsFromScratch *)
+Definition labels_from_scratch (c : pctx) (fpw : string * select) : select :=
+  and_prewhere [In (Id "time_series.fingerprint") [WRef (fst fpw) (snd fpw)]] (ts_init c).
+
 (* ---------- Process ---------- *)
 Definition res (A : Type) := option A.
 Definition bind {A B} (x : res A) (f : A -> res B) : res B := match x with Some a => f a | None => None end.
@@ -252,6 +379,20 @@ Fixpoint process (p : planner) (c : pctx) (st : pst) {struct p} : res (select * 
                    (fun object => Fn "mapUpdate" [object; sql_json_parser (map pp_label params) paths]) in
       let req1 := set_cols sel req in
       Some (set_cols (patch_col (s_cols req1) "fingerprint" (fun _ => fp_of_labels)) req1, st1, PParserP fn params main')
+    | PRegexp =>
+      (* Vals[0] parsed by the participle grammar of planner_parser_regexp.go: the oracle is carried in pp_path
+         of the first parameter as ast.String() :: collectGroupNames; no parameter = index out of range *)
+      do (req, st1, main') <- process main c st;
+      match params with
+      | [] => None
+      | p0 :: _ =>
+        match pp_path p0 with
+        | Some (re :: names) =>
+          let req1 := set_cols (patch_col (s_cols req) "labels" (fun object => Fn "mapUpdate" [object; regex_map names re])) req in
+          Some (set_cols (patch_col (s_cols req1) "fingerprint" (fun _ => fp_of_labels)) req1, st1, PParserP fn params main')
+        | _ => None
+        end
+      end
     | _ => None
     end
   | PDropP params main =>
@@ -300,6 +441,116 @@ Fixpoint process (p : planner) (c : pctx) (st : pst) {struct p} : res (select * 
                   SimpleCol (a ++ ".string") "string"; SimpleCol (a ++ ".timestamp_ns") "timestamp_ns"]
                  (if is_final then [Ord (Id "fingerprint") (c_asc c); Ord (Id "timestamp_ns") (c_asc c)]
                   else [Ord (Id "timestamp_ns") (c_asc c)]), st1, p')
+  | PLraP f dur wl main =>
+    do (m, st1, main') <- process main c st;
+    do v <- lra_val_of f dur;
+    let m1 := set_cols (rename_string (s_cols m)) m in
+    Some (set_groupby [Id "fingerprint"; Id "timestamp_ns"]
+           (set_from (Col (WRef "agg_a" m1) "time_series")
+            (set_cols ([Col (bucket_sql "time_series.timestamp_ns" dur) "timestamp_ns"; SimpleCol "fingerprint" "fingerprint";
+                        SimpleCol "''" "string"; Col (lra_val_sql v) "value"]
+                       ++ (if wl then [SimpleCol "any(labels)" "labels"] else []))
+             (with_ [("agg_a", m1)] empty_select))), st1, PLraP f dur wl main')
+  | PUnwrapP label main =>
+    do (m, st1, main') <- process main c st;
+    do labels <- get_col (s_cols m) "labels";                    (* "labels col not inited" *)
+    do src <- (if String.eqb label "_entry" then get_col (s_cols m) "string" else Some (Idx labels (StrV label)));
+    Some (set_cols (patch_col (s_cols m) "value" (fun _ => Fn "toFloat64OrZero" [src])) m, st1, PUnwrapP label main')
+  | PUnwrapFnP f dur main =>
+    do (m, st1, main') <- process main c st;
+    do v <- uw_val_of f dur;
+    Some (set_groupby [Id "fingerprint"; Id "timestamp_ns"]
+           (set_from (WRef "unwrap_1" m)
+            (set_cols [Col (bucket_sql "timestamp_ns" dur) "timestamp_ns"; Id "fingerprint"; SimpleCol "''" "string";
+                       Col (uw_val_sql v) "value"; SimpleCol "any(labels)" "labels"]
+             (with_ [("unwrap_1", m)] empty_select))), st1, PUnwrapFnP f dur main')
+  | PByWithoutP labels by_ use_ts main =>
+    do (m, st1, main') <- process main c st;
+    let p' := PByWithoutP labels by_ use_ts main' in
+    if negb use_ts then
+      let '(i, st2) := next_id st1 in
+      let a := "pre_by_without_" ++ string_of_N i in
+      Some (set_from (WRef a m)
+             (set_cols [SimpleCol "timestamp_ns" "timestamp_ns"; SimpleCol "cityHash64(labels)" "fingerprint";
+                        Col (bw_filter (Id (a ++ ".labels")) labels by_) "labels"; SimpleCol "string" "string";
+                        SimpleCol "value" "value"]
+              (with_ [(a, m)] empty_select)), st2, p')
+    else
+      do lsel <- match labels_cache st1 with
+                 | Some w => Some (set_from (Col (WRef (fst w) (snd w)) "a")
+                                    (set_cols [Id "fingerprint"; SimpleCol "cityHash64(labels)" "new_fingerprint";
+                                               Col (bw_filter (Id "a.labels") labels by_) "labels"] empty_select))
+                 | None =>
+                   match fp_cache st1 with
+                   | None => None
+                   | Some fpw =>
+                     let from := labels_from_scratch c fpw in
+                     Some (set_cols (patch_col (s_cols from) "labels" (fun o => bw_filter o labels by_)
+                                     ++ [SimpleCol "cityHash64(labels)" "new_fingerprint"]) from)
+                   end
+                 end;
+      let '(i1, st2) := next_id st1 in
+      let la := "labels_" ++ string_of_N i1 in
+      let st3 := set_labels_cache (la, lsel) st2 in
+      let '(i2, st4) := next_id st3 in
+      let ma := "pre_without_" ++ string_of_N i2 in
+      Some (set_joins [(join_type c, WRef la lsel, Some (Eq (Id (ma ++ ".fingerprint")) (Id (la ++ ".fingerprint"))))]
+             (set_from (WRef ma m)
+              (set_cols [SimpleCol (la ++ ".new_fingerprint") "fingerprint"; SimpleCol (ma ++ ".timestamp_ns") "timestamp_ns";
+                         SimpleCol (ma ++ ".value") "value"; SimpleCol "''" "string"; SimpleCol (la ++ ".labels") "labels"]
+               (with_ [(ma, m); (la, lsel)] empty_select))), st4, p')
+  | PAggOpP f wl main =>
+    do (m, st1, main') <- process main c st;
+    Some (set_groupby [Id "fingerprint"; Id "timestamp_ns"]
+           (set_from (WRef "lra_main" m)
+            (set_cols ([SimpleCol "fingerprint" "fingerprint"; Col (agg_val_sql f) "value";
+                        SimpleCol "lra_main.timestamp_ns" "timestamp_ns"; SimpleCol "''" "string"]
+                       ++ (if wl then [SimpleCol "any(lra_main.labels)" "labels"] else []))
+             (with_ [("lra_main", m)] empty_select))), st1, PAggOpP f wl main')
+  | PComparisonP fn v main =>
+    do (m, st1, main') <- process main c st;
+    Some (and_having [cmp_mk fn (Id "value") (FloatV v)] m, st1, PComparisonP fn v main')
+  | PTopKP len is_top main =>
+    do (m, st1, main') <- process main c st;
+    let hl := has_column (s_cols m) "labels" in
+    let q1 := set_groupby [Id "timestamp_ns"]
+               (set_from (WRef "par_a" m)
+                (set_cols [SimpleCol "par_a.timestamp_ns" "timestamp_ns"; Col (topk_slice len is_top hl) "slice"]
+                 (with_ [("par_a", m)] empty_select))) in
+    Some (set_joins [("array", SimpleCol "par_b.slice" "arr_b", None)]
+           (set_from (WRef "par_b" q1)
+            (set_cols ([SimpleCol "arr_b.2" "fingerprint"; SimpleCol "par_b.timestamp_ns" "timestamp_ns";
+                        SimpleCol "arr_b.1" "value"; SimpleCol "''" "string"]
+                       ++ (if hl then [SimpleCol "arr_b.3" "labels"] else []))
+             (with_ [("par_b", q1)] empty_select))), st1, PTopKP len is_top main')
+  | PQuantileP param dur main =>
+    do (m, st1, main') <- process main c st;
+    let hl := has_column (s_cols m) "labels" in
+    Some (set_groupby [Id "timestamp_ns"; Id "fingerprint"]
+           (set_from (WRef "quant_a" m)
+            (set_cols ([SimpleCol "quant_a.fingerprint" "fingerprint"; Col (bucket_sql "quant_a.timestamp_ns" dur) "timestamp_ns";
+                        Col (Sep "" [Raw "quantile("; FloatV param; Raw ")(value)"]) "value"]
+                       ++ (if hl then [SimpleCol "any(quant_a.labels)" "labels"] else []))
+             (with_ [("quant_a", m)] empty_select))), st1, PQuantileP param dur main')
+  | PStepFixP dur main =>
+    do (m, st1, main') <- process main c st;
+    let p' := PStepFixP dur main' in
+    if Z.leb (c_step_ns c) dur then Some (m, st1, p') else
+    Some (set_groupby [Id "timestamp_ns"; Id "fingerprint"]
+           (set_from (WRef "pre_step_fix" m)
+            (set_cols ([Col (bucket_sql "pre_step_fix.timestamp_ns" (c_step_ns c)) "timestamp_ns"; Id "fingerprint";
+                        SimpleCol "''" "string"; SimpleCol "argMin(pre_step_fix.value, pre_step_fix.timestamp_ns)" "value"]
+                       ++ (if has_column (s_cols m) "labels" then [SimpleCol "any(labels)" "labels"] else []))
+             (with_ [("pre_step_fix", m)] empty_select))), st1, p')
+  | PMetrics15 f dur =>
+    do v <- m15_val_of f dur;
+    let fl x := (Z.quot x 15000000000 * 15000000000)%Z in
+    Some (set_groupby [Id "fingerprint"; Id "timestamp_ns"]
+           (and_where [Ge (Id "samples.timestamp_ns") (IntV (fl (c_from_ns c)));
+                       Lt (Id "samples.timestamp_ns") (IntV (fl (c_to_ns c))); get_types c]
+            (set_from (SimpleCol (t_m15 c) "samples")
+             (set_cols [Col (bucket_sql "samples.timestamp_ns" dur) "timestamp_ns"; SimpleCol "fingerprint" "fingerprint";
+                        SimpleCol "''" "string"; Col (m15_val_sql v) "value"] empty_select))), st, p)
   end.
 
 (* ---------- planner.plan() for a stream-selector (log) script ---------- *)
@@ -342,7 +593,7 @@ Definition plan_stage (s : stage) (simple : bool) (cur : planner) : option plann
   | PLabelFilter f => Some (if simple then cur else PLabelFilterP f cur)
   | PLineFilter op v rl => Some (PLineFilterP op v rl cur)
   | PParser fn ps => Some (PParserP fn ps cur)
-  | PUnwrap _ => None
+  | PUnwrap l => Some (PUnwrapP l cur)         (* UseTimeSeriesTable = planner.fastUnwrap, which is never set *)
   | PDrop ps => Some (if simple then cur else PDropP ps cur)
   | PLabelFormat => Some cur                   (* no branch of planSpl handles label_format *)
   end.
@@ -383,4 +634,150 @@ Definition log_sql (sel : strsel) (finalize : bool) (c : pctx) : option string :
               | None => None
               | Some (q, _, _) => render q (c_cluster c)
               end
+  end.
+
+(* ================= planner.plan() for metric scripts (C08) ================= *)
+Definition is_some {A} (o : option A) : bool := match o with Some _ => true | None => false end.
+
+Definition last_is_unwrap (ppl : list stage) : bool :=
+  match rev ppl with PUnwrap _ :: _ => true | _ => false end.
+
+(* findFirst[LRAOrUnwrap](script) *)
+Definition first_lra (s : script) : option lra :=
+  match s with
+  | SLra l => Some l
+  | SAgg a => Some (agg_lra a)
+  | STopK t => match tk_arg t with TKLra l => Some l | TKAgg a => Some (agg_lra a) | TKQuantile _ => None end
+  | _ => None
+  end.
+
+(* AnalyzeMetrics15sShortcut: which pipeline stages let the query run on the 15-second roll-up table *)
+Definition m15_stage_ok (st : stage) : bool :=
+  match st with
+  | PParser _ _ => false
+  | PDrop _ => false
+  | PLineFilter _ v _ => String.eqb v ""
+  | _ => true
+  end.
+Definition analyze_m15 (s : script) : bool :=
+  match first_lra s with
+  | None => false
+  | Some l =>
+    (match lra_f l with FRate | FCountOverTime => true | _ => false end)
+    && negb (Z.ltb (lra_dur_ns l) 15000000000)
+    && negb (last_is_unwrap (sel_pipeline (lra_sel l)))
+    && forallb m15_stage_ok (sel_pipeline (lra_sel l))
+  end.
+
+(* getFunctionOrder: the closures appended to matrixFunctionsOrder, and matrixFunctionsLabelsIDX (None = -1) *)
+Inductive mfn := MLra (l : lra) | MUnwrapFn (l : lra) | MAgg (a : aggop) | MTopK (t : topk) | MQuantile (q : quantile)
+ | MCmp (c : comparison).
+Definition fo_cmp (c : option comparison) : list mfn := match c with Some x => [MCmp x] | None => [] end.
+Definition fo_lra (l : lra) (acc : list mfn) (lidx : option nat) : list mfn * option nat :=
+  if last_is_unwrap (sel_pipeline (lra_sel l)) then
+    ((acc ++ [MUnwrapFn l] ++ fo_cmp (lra_cmp l))%list, match lidx with None => Some (List.length acc) | _ => lidx end)
+  else ((acc ++ [MLra l] ++ fo_cmp (lra_cmp l))%list, lidx).
+Definition fo_agg (a : aggop) (acc : list mfn) (lidx : option nat) : list mfn * option nat :=
+  let '(acc1, l1) := fo_lra (agg_lra a) acc lidx in
+  let l2 := if is_some (agg_prefix a) || (is_some (agg_suffix a) && negb (is_some l1)) then Some (List.length acc1) else l1 in
+  ((acc1 ++ [MAgg a] ++ fo_cmp (agg_cmp a))%list, l2).
+Definition fo_quantile (q : quantile) (acc : list mfn) (lidx : option nat) : list mfn * option nat :=
+  ((acc ++ [MQuantile q] ++ fo_cmp (q_cmp q))%list, lidx).
+Definition function_order (s : script) : list mfn * option nat :=
+  match s with
+  | SLra l => fo_lra l [] None
+  | SAgg a => fo_agg a [] None
+  | STopK t =>
+    let '(acc, l) := match tk_arg t with
+                     | TKLra x => fo_lra x [] None
+                     | TKAgg a => fo_agg a [] None
+                     | TKQuantile q => fo_quantile q [] None end in
+    ((acc ++ [MTopK t] ++ fo_cmp (tk_cmp t))%list, l)
+  | SQuantile q => fo_quantile q [] None
+  | _ => ([], None)
+  end.
+
+(* planByWithout(prefix, suffix): the last non-nil argument wins *)
+Definition plan_bw (pre suf : option by_without) (use_ts : bool) (cur : planner) : planner :=
+  match (match suf with Some b => Some b | None => pre end) with
+  | None => cur
+  | Some b => PByWithoutP (bw_labels b) (bw_by b) use_ts cur
+  end.
+Definition plan_cmp (c : option comparison) (cur : planner) : planner :=
+  match c with Some x => PComparisonP (cmp_fn x) (cmp_val x) cur | None => cur end.
+Definition plan_topk (t : topk) (cur : planner) : option planner :=
+  if Z.ltb (tk_len t) 0 then None else Some (PTopKP (tk_len t) (tk_top t) cur).   (* strconv.Atoi error *)
+
+(* one closure of matrixFunctionsOrder; lji / lidx are read when the closure runs (their final values) *)
+Definition apply_mfn (lji_set lidx_set : bool) (f : mfn) (cur : planner) : option planner :=
+  match f with
+  | MLra l => Some (PLraP (lra_f l) (lra_dur_ns l) lji_set cur)
+  | MUnwrapFn l => Some (PUnwrapFnP (lra_f l) (lra_dur_ns l) (plan_bw (lra_prefix l) (lra_suffix l) (negb lji_set) cur))
+  | MAgg a => Some (PAggOpP (agg_f a) (lji_set || lidx_set) (plan_bw (agg_prefix a) (agg_suffix a) (negb lji_set) cur))
+  | MTopK t => plan_topk t cur
+  | MQuantile q => Some (PQuantileP (q_param q) (q_dur_ns q) (plan_bw (q_prefix q) (q_suffix q) (negb lji_set) cur))
+  | MCmp c => Some (PComparisonP (cmp_fn c) (cmp_val c) cur)
+  end.
+Fixpoint apply_mfns (lji_set lidx_set : bool) (fs : list mfn) (cur : planner) : option planner :=
+  match fs with
+  | [] => Some cur
+  | f :: r => match apply_mfn lji_set lidx_set f cur with Some c => apply_mfns lji_set lidx_set r c | None => None end
+  end.
+
+(* planMetrics15Shortcut; returns the planner and matrixFunctionsLabelsIDX != -1 *)
+Definition m15_lra (fp : planner) (l : lra) : planner :=
+  plan_cmp (lra_cmp l) (PFingerprintFilter fp (PMetrics15 (lra_f l) (lra_dur_ns l))).
+Definition m15_agg (fp : planner) (a : aggop) : planner * bool :=
+  let wl := is_some (agg_prefix a) || is_some (agg_suffix a) in
+  (plan_cmp (agg_cmp a) (PAggOpP (agg_f a) wl (plan_bw (agg_prefix a) (agg_suffix a) true (m15_lra fp (agg_lra a)))), wl).
+Definition plan_m15 (fp : planner) (s : script) : option (planner * bool) :=
+  match s with
+  | SLra l => Some (m15_lra fp l, false)
+  | SAgg a => Some (m15_agg fp a)
+  | STopK t =>
+    match (match tk_arg t with
+           | TKLra l => Some (m15_lra fp l, false)
+           | TKAgg a => Some (m15_agg fp a)
+           | TKQuantile _ => None end) with
+    | None => None
+    | Some (inner, wl) => match plan_topk t inner with Some p => Some (plan_cmp (tk_cmp t) p, wl) | None => None end
+    end
+  | _ => None
+  end.
+
+(* shared.GetDuration *)
+Definition get_duration (s : script) : Z :=
+  match s with
+  | SLra l => lra_dur_ns l
+  | SAgg a => lra_dur_ns (agg_lra a)
+  | STopK t => match tk_arg t with TKLra l => lra_dur_ns l | TKAgg a => lra_dur_ns (agg_lra a) | TKQuantile q => q_dur_ns q end
+  | SQuantile q => q_dur_ns q
+  | _ => 0
+  end.
+
+Definition plan_metric (s : script) (finalize : bool) : option planner :=
+  let sel := stream_selector s in
+  let ppl := sel_pipeline sel in
+  do (cur, lji_set, lidx_set, fp) <-
+    (if analyze_m15 s then
+       let fp := PStreamSelect (sel_matchers sel) in
+       do (p, wl) <- plan_m15 fp s; Some (p, false, wl, fp)
+     else
+       let simple := simple_ops ppl in
+       let lji := labels_join_idx ppl simple 0 in
+       let fp := plan_ts (sel_matchers sel) ppl simple in
+       do spl <- plan_spl ppl simple (renew_after ppl) 0 lji fp (PFingerprintFilter fp PMainInit);
+       let '(order, lidx) := function_order s in
+       do p <- apply_mfns (is_some lji) (is_some lidx) order spl;
+       Some (p, is_some lji, is_some lidx, fp));
+  let p1 := PStepFixP (get_duration s) cur in
+  let p2 := if negb lji_set && negb lidx_set then PLabelsJoin p1 fp PTimeSeriesInit false else p1 in
+  Some (PMainFinalizer p2 true finalize).
+
+(* Plan(script, finalize) for any script *)
+Definition plan_script (s : script) (finalize : bool) : option planner :=
+  match s with
+  | SLog sel => plan_log sel finalize
+  | SMacros => None
+  | _ => plan_metric s finalize
   end.
